@@ -146,6 +146,10 @@ type State struct {
 	wlog    []int // ids of cells written (stores), in order
 	logMark int   // index into log of the most recent loop cut (events before it belong to earlier iterations)
 	gen     map[int]*Term // generalised compound terms (term id -> fresh variable), applied to every later VC
+	focus   []*Term       // when non-nil: later VCs use only these facts (plus what is assumed afterwards)
+	focusAt int           // len(pc) when focus was set
+	focused bool
+	labelled map[string]*Term // asserted facts by label
 	schemas []*schema // quantified facts valid on this path (loop invariants, callee postconditions)
 	written map[*Cell]bool
 }
@@ -173,6 +177,13 @@ func (s *State) fork() *State {
 		n.gen = make(map[int]*Term, len(s.gen))
 		for k, t := range s.gen {
 			n.gen[k] = t
+		}
+	}
+	n.focus, n.focusAt, n.focused = s.focus, s.focusAt, s.focused
+	if s.labelled != nil {
+		n.labelled = make(map[string]*Term, len(s.labelled))
+		for k, t := range s.labelled {
+			n.labelled[k] = t
 		}
 	}
 	if s.written != nil {
